@@ -1119,7 +1119,7 @@ static bool _advance_parsing(binson_parser *parser, uint8_t scan_flags, bbuf *sc
                     state->flags = BINSON_STATE_IN_ARRAY_1;
                     state->array_depth++;
                 }
-                else {
+                else if (state->flags == BINSON_STATE_IN_OBJ_EXPECTING_FIELD) {
                     state->flags = BINSON_STATE_IN_OBJ_EXPECTING_VALUE;
                 }
                 break;
